@@ -455,7 +455,6 @@ func ruleBadSecretReply(p *Program, r *Result, typeVal map[string]int64) {
 	}
 }
 
-
 // underInputLengthGuard: block b is reached only through the taken edge of a comparison between
 // len(<the input parameter>) and a constant (the decoder's minimum-size guard).
 func underInputLengthGuard(b *ssa.BasicBlock, fn *ssa.Function) bool {
